@@ -264,6 +264,8 @@ def run(chk):
         c = cases[r["case"]]
         if r.get("lab"):
             nlab += 1
+            if nlab <= 3:
+                chk.note("lab: %s [%s]" % (r["lab"], c["name"][:80]))
             continue
         for v in r.get("violations") or []:
             chk.violation({"kind": v["kind"], "what": v["what"], "content": c["content"], "connection": v["k"],
